@@ -68,8 +68,13 @@ Behaviour(c) ==
 RootCases == [code : {"absent", "value"}, env : {"absent", "text"}]
 Root(c) == IF c.code = "value" THEN "code" ELSE IF c.env = "text" THEN "env_text" ELSE "computed"
 
+(* ---- 5. several agents configured one after the other in ONE process: each resolution stands on its own ---- *)
+RootSeqCases == UNION {[1..n -> RootCases] : n \in 2..3}
+RootSeq(q) == [i \in 1..Len(q) |-> Root(q[i])]
+
 Init ==
     \/ table = "root" /\ case \in RootCases /\ expected = [src |-> Root(case)]
+    \/ table = "rootseq" /\ case \in RootSeqCases /\ expected = [src |-> RootSeq(case)]
     \/ table = "lookup" /\ case \in LookupCases /\ expected = [src |-> Lookup(case)]
     \/ table = "path" /\ case \in PathCases /\ expected = IsApp(case)
     \/ table = "consumer" /\ case \in ConsumerCases /\ expected = [behaviour |-> Behaviour(case)]
@@ -88,5 +93,7 @@ ExclusionWins == (table = "path" /\ \E p \in case.exc : IsPrefix(p, case.file)) 
 AppIffIncludedOrRoot == (table = "path" /\ ~(\E p \in case.exc : IsPrefix(p, case.file))) =>
                             (expected.app <=> ((\E p \in case.inc : IsPrefix(p, case.file)) \/ IsPrefix(case.root, case.file)))
 RootCodeWins == (table = "root" /\ case.code = "value") => expected.src = "code"
+(* what one start resolved is not changed by, and does not change, what another start in the same process resolves *)
+EachStartOnItsOwn == table = "rootseq" => \A i \in 1..Len(case) : expected.src[i] = Root(case[i])
 SameEitherWay == table = "consumer" => \A f \in Forms : Behaviour([setting |-> case.setting, form |-> f]) = expected.behaviour
 =============================================================================
